@@ -43,6 +43,10 @@ def any_rule_text(rng, is_date, odd=True):
             r["bymonthday"] = rulegen._ilist(rng, 1, 31, neg=True, must=(31, -31))
         if p() < 0.12:
             r["byday"] = [(rng.choice([0, 0, 1, -1, 5, -5, 53, -53]), rng.randint(0, 6)) for _ in range(rng.randint(1, 4))]
+        elif p() < 0.04:
+            # a long list: every weekday of several weeks of the month/year (more entries than the small-set storage holds)
+            ks = rng.sample([1, 2, 3, 4, 5, -1, -2, -3, -4, -5], rng.randint(2, 6))
+            r["byday"] = [(k, w) for k in ks for w in rng.sample(range(7), rng.randint(3, 7))]
         if p() < 0.12:
             r["bysetpos"] = rulegen._ilist(rng, 1, 366, neg=True, must=(366, -366, 1, -1))
         if not is_date:
